@@ -60,6 +60,14 @@ pub fn cli_main() {
     if args.first().map(|s| s.as_str()) == Some("--fuzz-seeds") {
         let dir = args.get(1).cloned().unwrap_or_else(|| ".".into());
         std::fs::create_dir_all(&dir).expect("mkdir");
+        // `--fuzz-seeds DIR` : seeds of parse_any;  `--fuzz-seeds DIR <ID>` : recorded generator
+        // streams of the history check <ID> for the `history` target
+        if let Some(id) = args.get(2) {
+            for (i, s) in fuzz_api::history_seeds(id, 200).into_iter().enumerate() {
+                std::fs::write(format!("{dir}/hist-{i:03}"), s).expect("write seed");
+            }
+            return;
+        }
         for (i, s) in fuzz_api::parse_any_seeds().into_iter().enumerate() {
             std::fs::write(format!("{dir}/seed-{i:02}"), s).expect("write seed");
         }
